@@ -81,6 +81,11 @@ def run_repo_tests_with_contracts(files, workdir, timeout=3600,
                           'per_class': per,
                           'unpicklable': sum(h['unpicklable'] for h in hv),
                           'files': [h['file'] for h in hv if h.get('file')]}
+    wc = [r['wirecap'] for r in reps if r.get('wirecap')]
+    if wc:
+        rep['wirecap'] = {'sent': sum(w['sent'] for w in wc),
+                          'kept': sum(w['kept'] for w in wc),
+                          'files': [w['file'] for w in wc if w.get('file')]}
     eh = [r['eqhash'] for r in reps if r.get('eqhash')]
     if eh:
         per = {}
@@ -134,3 +139,31 @@ def harvest_repo_objects(workdir, files=None, timeout=3600):
     rep['harvest']['distinct'] = len(objs)
     rep['harvest']['unpickle_failed'] = bad
     return objs, rep
+
+
+WIRE_TEST_FILES = ['tests/functiontest',
+                   'tests/unittest/pywbem/test_cim_operations.py',
+                   'tests/unittest/pywbem/test_recorder.py',
+                   'tests/unittest/pywbem/test_logging.py',
+                   'tests/unittest/pywbem/test_cim_http.py',
+                   'tests/unittest/pywbem/test_itermethods.py']
+
+
+def captured_requests(workdir, files=None, timeout=3600):
+    """-> (requests [(body bytes, headers dict)], report): the CIM-XML requests
+    that the repository's own tests make pywbem send."""
+    import pickle
+    rep = run_repo_tests_with_contracts(files or WIRE_TEST_FILES, workdir,
+                                        timeout=timeout, monitors='wirecap')
+    if 'error' in rep:
+        return [], rep
+    seen, out = set(), []
+    for path in (rep.get('wirecap') or {}).get('files', []):
+        with open(path, 'rb') as f:
+            for body, headers in pickle.load(f):
+                key = (body, tuple(sorted(headers.items())))
+                if key not in seen:
+                    seen.add(key)
+                    out.append((body, headers))
+    rep.setdefault('wirecap', {})['distinct'] = len(out)
+    return out, rep
